@@ -40,6 +40,9 @@ fn dispatch<P: Property>(p: &P, mode: &str, arg: &str) -> i32 {
 fn main() {
     install_quiet_panic_hook();
     let args: Vec<String> = std::env::args().collect();
+    if args.len() == 2 && args[1] == "selftest" {
+        std::process::exit(crate::core::selftest::run());
+    }
     if args.len() < 4 {
         eprintln!("usage: harness run|digest|replay <ID> <quick|thorough|file>");
         std::process::exit(2);
